@@ -28,7 +28,8 @@ REGISTRY = dict(
           "can fire and at every call the bath stacks and orthogonality centre are the ones the position dictates; step k "
           "is run with drive row k, the interaction matrix being queried at the mid-point for step 0 and at the step START "
           "for every later step (mirrored as written); drive columns and interaction matrix are permuted by the same map "
-          "site j -> atom perm[j] (the pre-4109696 variant is refuted by a kernel-checked counterexample). ASSUMED, not "
+          "site j -> atom perm[j], and a user-supplied initial state is rewritten with that same map (the pre-4109696 variant and the "
+          "inverse-map variant are refuted by kernel-checked counterexamples). ASSUMED, not "
           "proved: accuracy of two-site TDVP projector splitting, Krylov exponential and SVD truncation (DynamicsClaim kept "
           "as a Prop) — validated on every run against dense expm evolution (<= 6 atoms) within a stated tolerance."),
     note=("Trusted: Lean kernel + propext/Classical.choice/Quot.sound; hand-written Model.Stepper tied by exact event-stream "
@@ -160,8 +161,80 @@ def total_progress_calls(n, ns):
     return ns * (1 if n <= 2 else 2 * n - 3)
 
 
+
+# ------------------------------------------------------------------ initial state: site-order rewrite
+STATE_CLASS = "mps-initial-state-inverse-permutation"
+
+
+def mps_dense(state):
+    """contract an MPS to its dense amplitude vector (site 0 = most significant index, 'r' = 1)"""
+    import torch
+    v = state.factors[0].reshape(-1, state.factors[0].shape[-1])
+    for f in state.factors[1:]:
+        v = torch.tensordot(v, f, dims=([-1], [0])).reshape(-1, f.shape[-1])
+    return v.reshape(-1)
+
+
+def gen_state_case(rng):
+    n = rng.choice([3, 4, 4, 5, 5])
+    while True:
+        perm = list(range(n))
+        rng.shuffle(perm)
+        inv = [perm.index(a) for a in range(n)]
+        if rng.random() < 0.15 or inv != perm:       # mostly orders with a cycle of length >= 3
+            break
+    m = rng.randint(1, 4)
+    strs = set()
+    while len(strs) < m:
+        b = "".join(rng.choice("rg") for _ in range(n))
+        if len(set(b)) > 1:                            # not permutation symmetric
+            strs.add(b)
+    raw = [rng.choice([1, 2, 3, 5, 7]) * rng.choice([1, -1, 1j]) for _ in strs]
+    norm = math.sqrt(sum(abs(a) ** 2 for a in raw))
+    amps = {b: a / norm for b, a in zip(sorted(strs), raw)}
+    return dict(n=n, perm=perm, amps=amps)
+
+
+def real_initial_state(c):
+    """what the real `init_initial_state` stores as `impl.state` for a user-supplied state (dense, site order)"""
+    import contextlib
+    import io
+    import torch
+    import emu_mps.mps_backend_impl as mbi
+    from emu_mps.mps import MPS
+    from pulser.backend import Occupation
+    from unittest import mock
+    n = c["n"]
+    x = gen_register(seeded(1), n, shuffled=False)
+    z = torch.zeros(1, n)
+    data = compat.make_sequence_data(z, z, z, interaction(x), [0.0, 10.0])
+    with contextlib.redirect_stdout(io.StringIO()):
+        psi = MPS.from_state_amplitudes(eigenstates=("r", "g"), amplitudes=dict(c["amps"]))
+        cfg = compat.mps_config(observables=[Occupation(evaluation_times=[1.0])], optimize_qubit_ordering=True,
+                                initial_state=psi)
+        with mock.patch.object(mbi.optimat, "minimize_bandwidth", lambda m, *a, **k: torch.tensor(c["perm"])):
+            impl = mbi.MPSBackendImpl(cfg, data)
+            impl.init()
+    return mps_dense(impl.state)
+
+
+def expected_dense(n, amps):
+    import torch
+    v = torch.zeros(2 ** n, dtype=torch.complex128)
+    for b, a in amps.items():
+        v[int("".join("1" if ch == "r" else "0" for ch in b), 2)] = a
+    return v
+
+
+def bits(b):
+    return ",".join("1" if ch == "r" else "0" for ch in b)
+
+
+def unbits(s):
+    return "".join("r" if t == "1" else "g" for t in s.split(","))
+
 # ------------------------------------------------------------------ dense reference (independent of the MPO code)
-def dense_reference(om, de, ph, Ufun, times, xy):
+def dense_reference(om, de, ph, Ufun, times, xy, psi0=None):
     import numpy as np
     import scipy.linalg as sla
     ns, n = len(om), len(om[0])
@@ -190,6 +263,8 @@ def dense_reference(om, de, ph, Ufun, times, xy):
         return h
     psi = np.zeros(2 ** n, dtype=complex)
     psi[0] = 1
+    if psi0 is not None:
+        psi = np.array(psi0, dtype=complex)
     occ = [[(psi.conj() @ N[j] @ psi).real for j in range(n)]]
     en = [(psi.conj() @ H(0) @ psi).real]
     for k in range(ns):
@@ -200,8 +275,8 @@ def dense_reference(om, de, ph, Ufun, times, xy):
     return np.array(occ), np.array(en)
 
 
-def gen_dense(rng, nmax):
-    n = rng.randint(2, nmax)
+def gen_dense(rng, nmax, force_cycle=False):
+    n = 5 if force_cycle else rng.randint(2, nmax)
     dt = rng.choice([10.0, 5.0, 4.0])
     ns = rng.randint(8, 20)
     times = [k * dt for k in range(ns + 1)]
@@ -209,6 +284,8 @@ def gen_dense(rng, nmax):
     relabel = list(range(n))
     rng.shuffle(relabel)                          # second leg: atom i sits at chain position relabel[i]
     xy = rng.random() < 0.3
+    if force_cycle:                               # 5 atoms, a 4-cycle: the chain order and its reversal are not self-inverse
+        relabel, xy = [1, 2, 3, 0, 4], False
     U = interaction(x, xy)
     amp = [rng.uniform(2, 12) for _ in range(n)]
     om = [[amp[j] * math.sin(math.pi * (k + 0.5) / ns + 0.3 * j) ** 2 for j in range(n)] for k in range(ns)]
@@ -221,8 +298,19 @@ def gen_dense(rng, nmax):
         a = rng.randrange(n)
         masked[a, :] = 0.0
         masked[:, a] = 0.0
+    init = None
+    if not xy and n >= 2 and (force_cycle or rng.random() < 0.5):
+        # user-supplied, non permutation-symmetric initial state, amplitudes keyed by chain-order basis strings
+        strs = set()
+        while len(strs) < min(3, 2 ** n - 2):
+            b = "".join(rng.choice("rg") for _ in range(n))
+            if len(set(b)) > 1:
+                strs.add(b)
+        raw = [rng.choice([1, 2, 3]) * rng.choice([1, -1, 1j]) for _ in strs]
+        nrm = math.sqrt(sum(abs(a) ** 2 for a in raw))
+        init = {b: [(a / nrm).real, (a / nrm).imag] for b, a in zip(sorted(strs), raw)}
     return dict(n=n, ns=ns, times=times, x=x, xy=xy, U=U, masked=masked, slm=slm, om=om, de=de, ph=ph, dt=dt,
-                relabel=relabel)
+                relabel=relabel, init=init)
 
 
 def dense_tolerance(c, precision):
@@ -246,7 +334,10 @@ def dense_check(c, precision=1e-5):
     from pulser.backend import Occupation, Energy
     ev = [t / c["times"][-1] for t in c["times"]]
     Ufun = lambda t: (c["masked"] if t < c["slm"] else c["U"])
-    rocc, ren = dense_reference(c["om"], c["de"], c["ph"], Ufun, c["times"], c["xy"])
+    init = c.get("init")
+    amps1 = {b: complex(*a) for b, a in init.items()} if init else None
+    psi0 = expected_dense(c["n"], amps1).numpy() if init else None
+    rocc, ren = dense_reference(c["om"], c["de"], c["ph"], Ufun, c["times"], c["xy"], psi0)
     tol_o, tol_e = dense_tolerance(c, precision)
     stats = {}
     res_by = {}
@@ -258,16 +349,35 @@ def dense_check(c, precision=1e-5):
     c2 = dict(c, U=c["U"][idx][:, idx], masked=c["masked"][idx][:, idx],
               om=[[r[a] for a in rl] for r in c["om"]], de=[[r[a] for a in rl] for r in c["de"]],
               ph=[[r[a] for a in rl] for r in c["ph"]])
+    perms = []
+    import emu_mps.mps_backend_impl as mbi
+    from emu_mps.mps import MPS
+    from unittest import mock
+    o_mb = mbi.optimat.minimize_bandwidth
+
+    def rec_mb(*a, **k):
+        r = o_mb(*a, **k)
+        perms.append(r.tolist())
+        return r
     for reorder, cc in ((False, c), (True, c2)):
+        extra = {}
+        if init:
+            # leg 2: atom i sits at chain position rl[i], so its symbol is the chain string's symbol at rl[i]
+            amps = amps1 if not reorder else {"".join(b[a] for a in rl): v for b, v in amps1.items()}
+            extra["initial_state"] = MPS.from_state_amplitudes(eigenstates=("r", "g"), amplitudes=amps)
         cfg = compat.mps_config(observables=[Occupation(evaluation_times=ev), Energy(evaluation_times=ev)],
-                                optimize_qubit_ordering=reorder, dt=c["dt"], precision=precision)
+                                optimize_qubit_ordering=reorder, dt=c["dt"], precision=precision, **extra)
         try:
             import contextlib
             import io
-            with contextlib.redirect_stdout(io.StringIO()):
+            with contextlib.redirect_stdout(io.StringIO()), mock.patch.object(mbi.optimat, "minimize_bandwidth", rec_mb):
                 res = compat.run_mps(make_data(cc), cfg)
         except Exception as e:
             return f"run_mps raised {type(e).__name__}: {e} (reordering {reorder})", None, stats
+        if reorder and perms:
+            p = perms[-1]
+            stats["perm"] = p
+            stats["perm_self_inverse"] = [p.index(a) for a in range(len(p))] == p
         if [round(t, 12) for t in res.get_result_times("occupation")] != [round(t, 12) for t in ev]:
             return f"occupation recorded at {res.get_result_times('occupation')!r}, due at {ev!r}", None, stats
         occ = np.array([o.numpy() for o in res.occupation])
@@ -283,7 +393,7 @@ def dense_check(c, precision=1e-5):
         if eo > tol_o or ee > tol_e:
             klass = None
             if reorder and res_by[False][0] <= tol_o and res_by[False][1] <= tol_e:
-                klass = D1_CLASS + "-dense"   # only the reordered run is wrong
+                klass = "mps-reordered-run-deviates-dense"   # only the reordered run is wrong
             return (f"run_mps deviates from dense evolution (reordering {'on' if reorder else 'off'}): "
                     f"|d occupation| = {eo:.3e} (tol {tol_o:.3e}), |d energy| = {ee:.3e} (tol {tol_e:.3e})"), klass, stats
     return None, None, stats
@@ -299,6 +409,8 @@ def _ser(c):
 def _deser(d):
     import torch
     c = dict(d)
+    if "U" not in d:
+        return c
     c["U"] = torch.tensor(d["U"], dtype=torch.float64)
     c["masked"] = torch.tensor(d["masked"], dtype=torch.float64)
     return c
@@ -366,6 +478,26 @@ def check(rep: Report, tier: str, seed: int) -> None:
             lines.append(f"stepper.inter {p} {rows_arg(Uq)}")
             expect.append(rows_arg(m))
             meta.append(("inter", c, q, perm))
+    # ---- 1b. user-supplied initial state: site-order rewrite under permutations with 3- and 4-cycles
+    state_cases = []
+    for _ in range(40 if quick else 600):
+        sc = gen_state_case(rng)
+        try:
+            got = real_initial_state(sc)
+        except Exception as e:
+            rep.fail(f"init_initial_state raised {type(e).__name__}: {e}", {"state_case": True, "n": sc["n"], "perm": sc["perm"],
+                                                                         "amps": {b: [a.real, a.imag] for b, a in sc["amps"].items()}})
+            continue
+        first = len(lines)
+        p = ",".join(str(a) for a in sc["perm"])
+        for b in sc["amps"]:
+            for variant in ("direct", "inverse"):
+                lines.append(f"stepper.statemap {variant} {p} {bits(b)}")
+                expect.append(None)
+                meta.append(("state", None, None, sc["perm"]))
+        state_cases.append((sc, got, first))
+        inv = [sc["perm"].index(a) for a in range(sc["n"])]
+        rep.hist("state_perm_self_inverse", inv == sc["perm"])
     rep.extra["t_real_traced_s"] = round(time.time() - t0, 1)
     t0 = time.time()
     try:
@@ -405,6 +537,36 @@ def check(rep: Report, tier: str, seed: int) -> None:
             j = next((j for j, (x, y) in enumerate(zip(a, b)) if x != y), min(len(a), len(b)))
             rep.broke(f"correspondence Model.Stepper vs MPSBackendImpl ({kind} {info if kind != 'run' else 'k=' + str(info)}, perm {perm}): "
                       f"first difference at token {j}: model={a[j:j + 2]} impl={b[j:j + 2]} case={json.dumps(_ser(c))[:300]}")
+    # initial-state verdicts: the real site-order state against the model's relabelling (|<model|real>| = 1 to 1e-10)
+    st_bad, st_inv = 0, 0
+    for sc, got, first in state_cases:
+        if out[first] is None:
+            continue
+        exp_d, exp_i = {}, {}
+        for j, (b, a) in enumerate(sc["amps"].items()):
+            exp_d[unbits(out[first + 2 * j])] = a
+            exp_i[unbits(out[first + 2 * j + 1])] = a
+        ov_d = abs(complex((expected_dense(sc["n"], exp_d).conj() * got).sum()))
+        ov_i = abs(complex((expected_dense(sc["n"], exp_i).conj() * got).sum()))
+        data = {"state_case": True, "n": sc["n"], "perm": sc["perm"],
+                "amps": {b: [a.real, a.imag] for b, a in sc["amps"].items()}}
+        rep.case(key=("state", tuple(sc["perm"]), tuple(sorted(sc["amps"]))), nontrivial=exp_d != exp_i,
+                 sample={"state": True, "perm": sc["perm"], "strings": sorted(sc["amps"])})
+        if abs(ov_d - 1.0) <= 1e-10:
+            continue
+        if abs(ov_i - 1.0) <= 1e-10:
+            st_inv += 1
+            if st_inv <= 2:
+                rep.fail(f"init_initial_state rewrites the user-supplied state with the INVERSE of the site order {sc['perm']}: "
+                         f"overlap with P psi0 = {ov_d:.3e}, with P^-1 psi0 = {ov_i:.12f}", data, klass=STATE_CLASS)
+        else:
+            st_bad += 1
+            if st_bad <= 2:
+                rep.broke(f"correspondence initial state: perm {sc['perm']} strings {sorted(sc['amps'])}: overlap with the model's "
+                          f"relabelling {ov_d:.3e} (inverse map {ov_i:.3e})")
+                rep.fail(f"init_initial_state does not produce P psi0 for site order {sc['perm']} (overlap {ov_d:.3e})", data)
+    rep.extra["state_cases"] = len(state_cases)
+    rep.extra["state_inverse_variant_hits"] = st_inv
     rep.extra["disagreements"] = dis
     rep.extra["d1_variant_hits"] = d1_hits
 
@@ -412,14 +574,17 @@ def check(rep: Report, tier: str, seed: int) -> None:
     ndense = 6 if quick else 40
     worst = 0.0
     t0 = time.time()
-    for _ in range(ndense):
-        c = gen_dense(rng, 5 if quick else 6)
+    for di in range(ndense):
+        c = gen_dense(rng, 5 if quick else 6, force_cycle=(di % 6 == 0))
         msg, klass, stats = dense_check(c)
+        if c.get("init"):
+            rep.hist("dense_user_initial_state_perm_self_inverse", stats.get("perm_self_inverse"))
         rep.case(key=("dense", c["n"], c["ns"], tuple(c["x"]), c["xy"]), nontrivial=True,
                  sample={"dense": True, "atoms": c["n"], "steps": c["ns"], "dt": c["dt"], "xy": c["xy"], "slm": c["slm"]})
         rep.hist("dense_atoms", c["n"])
-        for v in stats.values():
-            worst = max(worst, v[0], v[1])
+        for leg in (False, True):
+            if leg in stats:
+                worst = max(worst, *stats[leg])
         if msg:
             rep.fail(msg, dict(_ser(c), dense=True), klass=klass)
     rep.extra["dense_worst_error_over_tolerance"] = worst
@@ -452,6 +617,12 @@ def replay(rep: Report, path: str) -> int:
         c = _deser(f["data"])
         if c.get("dense"):
             msg, _, _ = dense_check(c)
+        elif c.get("state_case"):
+            sc = dict(n=c["n"], perm=c["perm"], amps={b: complex(*a) for b, a in c["amps"].items()})
+            got = real_initial_state(sc)
+            want = {"".join(b[a] for a in sc["perm"]): v for b, v in sc["amps"].items()}   # site k <- atom perm[k]
+            ov = abs(complex((expected_dense(sc["n"], want).conj() * got).sum()))
+            msg = None if abs(ov - 1.0) <= 1e-10 else f"site-order initial state has overlap {ov:.3e} with P psi0 (site order {sc['perm']})"
         else:
             full = total_progress_calls(c["n"], c["ns"])
             status, fin, tr, perm = run_real(c, full)
